@@ -131,7 +131,7 @@ func Build(base string, sim *Sim) (*Repo, error) {
 			}
 			sideOpen = true
 		}
-		if len(c.Parents) == 2 {
+		if len(c.Parents) == 2 || c.Commit.Squash {
 			sideOpen = false
 		}
 		if want != lane {
